@@ -5,7 +5,9 @@ that it applies, compiles and that the repository's own test suite still passes 
 import sys, os, json, shutil, subprocess, glob
 sid, detected = sys.argv[1], sys.argv[2]
 note = sys.argv[3] if len(sys.argv) > 3 else ""
-src = f"/tmp/mut/{sid}/out"; dst = f"/verif/seeded/{sid}"
+# "C06-2" = second seeded change for C06, produced under /tmp/mut2/C06/out
+base, _, rnd = sid.partition("-")
+src = f"/tmp/mut{rnd}/{base}/out" if rnd else f"/tmp/mut/{sid}/out"; dst = f"/verif/seeded/{sid}"
 os.makedirs(dst, exist_ok=True)
 for f in glob.glob(src + "/*"):
     if os.path.isfile(f): shutil.copy(f, dst)
